@@ -353,6 +353,17 @@ inline rc::Gen<ZoneSpec> zone_gen() {
       }
     }
     if (z.version == 1) { z.has_footer = false; z.footer.clear(); }
+    // --- a zone described by rules alone (zic -b slim for "Zone X 1:00 R CE%sT" with rules since 1900): ONE type, one
+    // recorded transition to it (a no-op), and a footer that needs a second type which the table does not contain
+    if (fk == 3 && z.has_footer && z.version != 1 && *vf::range<int>(0, 19) == 0) {
+      zm::Model rm; rm.px = P; rm.has_rule = true;
+      const i128 y = *vf::range<int>(1850, 2030);
+      i128 s0, e0; rm.rule_transitions(y, &s0, &e0);
+      const bool to_dst = *vf::range<int>(0, 1) == 1;
+      z.types.clear(); z.trans.clear();
+      z.types.push_back(to_dst ? TypeSpec{P.dst_off, true, P.dst_abbr} : TypeSpec{P.std_off, false, P.std_abbr});
+      z.trans.push_back(zm::Trans{(int64_t)(to_dst ? s0 : e0), 0});
+    }
     // --- like zic -b slim: one zone in three keeps only the types that some transition refers to (and type 0), so a
     // footer may need a type that the table does not contain
     if (*vf::range<int>(0, 2) == 0 && z.types.size() > 1) {
